@@ -173,6 +173,23 @@ def run(tier, seed):
     # ---- part B: reader over prefixes of valid files
     nfiles = 3 if tier == 'quick' else 40
     files = build_files(tier, seed, nfiles)
+    # small files with every kind of member, cut at EVERY byte (each member head, key and value is cut through once)
+    nsmall = 5 if tier == 'quick' else 60
+    small_cases = []
+    for k in range(nsmall):
+        rr = gen.seeded(seed, 'C05small', k)
+        pre = gen.gen_preamble(rr, nbps=rr.choice([1, 2]), maxi=rr.choice([2, 3, 5]), hints=(gen.ALL_QRH, gen.ALL_SIGH, 3, 3), tps=10 ** 6)
+        small_cases.append(gen.gen_history(rr, 's%03d' % k, preamble=pre, nops=rr.choice([8, 14]), direct=(k % 2 == 0), rotations=False, addbp=False, stats_p=0.6,
+                                           kind='name', comp='none', weights=dict(qr=30, mm=25, aec=15, wb=6, counters=0, setactive=3)))
+    ers = ExportRun(PROP, small_cases, 'c05small', need_lib_read=False)
+    try:
+        for pc in ers.per_case:
+            if pc and pc['docs']:
+                o = pc['outs'][0]
+                if o.data and len(o.data) < 12000:
+                    files.append((1000 + len(files), o.data, pc['docs'][o.id].block_spans))
+    finally:
+        ers.close()
     wd2 = runner.workdir('c05p')
     cuts_total = 0
     boundary_hits = 0
@@ -190,6 +207,8 @@ def run(tier, seed):
             for k in range(1, L // W + 1):
                 cuts |= set(range(k * W - 4, min(L, k * W + 4) + 1))
             cuts |= {r.randrange(0, L) for _ in range(100 if tier == 'quick' else 300)}
+            if fi >= 1000:
+                cuts = set(range(0, L + 1))
             boundary_hits += sum(1 for (s, e) in spans if min(e % W, W - e % W) <= 3)
             jobs.append({'id': 'f%d/full' % fi, 'path': p, 'stream': 'ifstream', 'dump': 'hash'})
             meta.append((fi, L, None))
@@ -242,7 +261,7 @@ def run(tier, seed):
                block_boundaries_within_3_bytes_of_a_window_multiple=boundary_hits)
     cov = dict(evaluations=len(cases) + cuts_total, distinct_nontrivial=len(cases) + cuts_total,
                rule='decoder: inputs of exactly controlled length (incl. 0 and multiples of the 65535-byte window) x stream kind x 12 first operations after exhaustion; reader: every prefix f[:n] for n exhaustive '
-                    'within +-4 of every block boundary and every window multiple, 0..64, |f|-64..|f|, plus random n; all cases distinct by construction (length/stream/op or file/cut)',
+                    'within +-4 of every block boundary and every window multiple, 0..64, |f|-64..|f|, plus random n; small files (< 12 kB, all record kinds): EVERY n; all cases distinct by construction (length/stream/op or file/cut)',
                samples=[cases[0], cases[len(cases) // 2], {'file_bytes': len(files[0][1]) if files else 0, 'block_spans': files[0][2][:4] if files else []}], observed=obs)
     inc = None
     if not files:
